@@ -719,6 +719,70 @@ fn ellipsis_run_matrix(acc: &mut Acc) {
     }
 }
 
+/// Long runs: ellipsis variables bound to every number N <= top of items (flat, pairs, inside a
+/// vector, nested runs, runs after fixed leading patterns), the items all different so that a
+/// dropped, duplicated or reordered one shows; literal strings / characters spelled like a literal
+/// identifier in the literal's position.
+fn long_run_matrix(acc: &mut Acc, top: usize) {
+    let mut it = Interp::must_new();
+    let p = |t: &str| crate::sexp::parse1(t);
+    let sets: Vec<(&str, Vec<(&str, &str)>, Box<dyn Fn(usize) -> String>)> = vec![
+        ("flat", vec![("(m x ...)", "'(hit x ...)")], Box::new(|n| format!("(m {})", (1..=n).map(|i| i.to_string()).collect::<Vec<_>>().join(" ")))),
+        ("after-two-fixed", vec![("(m a b x ...)", "'(hit b a (x ...) x ...)")], Box::new(|n| format!("(m p q {})", (1..=n).map(|i| i.to_string()).collect::<Vec<_>>().join(" ")))),
+        ("pairs", vec![("(m (k v) ...)", "'((v k) ...)")], Box::new(|n| format!("(m {})", (1..=n).map(|i| format!("({} {})", i, i + 1000)).collect::<Vec<_>>().join(" ")))),
+        ("pairs-apart", vec![("(m (k v) ...)", "'((k ...) (v ...))")], Box::new(|n| format!("(m {})", (1..=n).map(|i| format!("({} {})", i, i + 1000)).collect::<Vec<_>>().join(" ")))),
+        ("vector", vec![("(m #(x ...))", "'#(x ... end)")], Box::new(|n| format!("(m #({}))", (1..=n).map(|i| i.to_string()).collect::<Vec<_>>().join(" ")))),
+        ("nested-long-inner", vec![("(m (a b ...) ...)", "'((a (b ...)) ...)")], Box::new(|n| format!("(m (h1 {}) (h2) (h3 {}))", (1..=n).map(|i| i.to_string()).collect::<Vec<_>>().join(" "), (1..=n / 2).map(|i| i.to_string()).collect::<Vec<_>>().join(" ")))),
+        ("nested-long-outer", vec![("(m (a b ...) ...)", "'((b ... a) ...)")], Box::new(|n| format!("(m {})", (1..=n).map(|i| format!("({} {} {})", i, i + 1, i + 2)).collect::<Vec<_>>().join(" ")))),
+        ("literal-in-run", vec![("(m (lit x) ...)", "'(all-lit x ...)"), ("(m y ...)", "'(other y ...)")], Box::new(|n| format!("(m {})", (1..=n).map(|i| if i == n && n % 2 == 0 { format!("(foo {})", i) } else { format!("(lit {})", i) }).collect::<Vec<_>>().join(" ")))),
+    ];
+    for (si, (name, rules, mk)) in sets.iter().enumerate() {
+        let rs = RuleSet { literals: vec!["lit".into()], rules: rules.iter().map(|(a, b)| (p(a), p(b))).collect() };
+        it.fresh_frame();
+        let t = match install(&mut it, &rs) {
+            Ok(t) => t,
+            Err(why) => {
+                acc.mismatch(Mismatch { idx: 9_200_000_000 + si as u64, case: rs.define_text(), expected: "rule set accepted".into(), observed: why, payload: json!({"define": rs.define_text(), "use": null}) }, None);
+                continue;
+            }
+        };
+        for n in 0..=top {
+            let use_ = p(&mk(n));
+            let mut paths = vec![("transform", judge_direct(&t, &rs, &use_))];
+            if n % 8 == 0 || n < 8 {
+                paths.push(("eval", judge_eval(&mut it, &rs, &use_)));
+            }
+            for (path, v) in paths {
+                acc.evals += 1;
+                acc.count(&format!("long-run-matrix: {}", name), 1);
+                match v {
+                    Verdict::Ok(h) => acc.distinct_hash(h),
+                    Verdict::Excluded(why) => acc.exclude(why, || format!("{}  {}", rs.define_text(), use_)),
+                    Verdict::Bad(exp, obs) => acc.mismatch(
+                        Mismatch { idx: 9_200_000_000 + (si * 10_000 + n) as u64, case: format!("[long-run {} n={}] {}\n{}", name, n, rs.define_text(), use_), expected: exp, observed: format!("[{}] {}", path, obs), payload: json!({"define": rs.define_text(), "use": use_.to_string(), "literals": rs.literals, "rules": rs.rules.iter().map(|(p, t)| vec![p.to_string(), t.to_string()]).collect::<Vec<_>>()}) },
+                        None,
+                    ),
+                }
+            }
+        }
+    }
+    // a string / character whose contents are spelled like a literal identifier is not that identifier
+    let rs = RuleSet { literals: vec!["else".into(), "=".into(), "lit".into()], rules: vec![(p("(m else a)"), p("'(is-else a)")), (p("(m a = b)"), p("'(is-eq a b)")), (p("(m lit)"), p("'is-lit")), (p("(m a ...)"), p("'(other a ...)"))] };
+    it.fresh_frame();
+    if let Ok(t) = install(&mut it, &rs) {
+        for u in ["(m else 1)", "(m \"else\" 1)", "(m 'else 1)", "(m 2 = 3)", "(m 2 \"=\" 3)", "(m 2 #\\= 3)", "(m lit)", "(m \"lit\")", "(m #(lit))", "(m (lit))", "(m #\\l)", "(m \"\")"] {
+            let use_ = p(u);
+            for (path, v) in [("transform", judge_direct(&t, &rs, &use_)), ("eval", judge_eval(&mut it, &rs, &use_))] {
+                acc.evals += 1;
+                acc.count("literal-spelling-matrix", 1);
+                if let Verdict::Bad(exp, obs) = v {
+                    acc.mismatch(Mismatch { idx: 9_300_000_000, case: format!("[literal spelling] {}\n{}", rs.define_text(), use_), expected: exp, observed: format!("[{}] {}", path, obs), payload: json!({"define": rs.define_text(), "use": use_.to_string(), "literals": rs.literals, "rules": rs.rules.iter().map(|(p, t)| vec![p.to_string(), t.to_string()]).collect::<Vec<_>>()}) }, None);
+                }
+            }
+        }
+    }
+}
+
 pub fn run(ctx: &Ctx) -> i32 {
     let pl = plan(ctx.thorough());
     let total = std::env::var("C04_LIMIT").ok().and_then(|s| s.parse().ok()).unwrap_or(pl.total());
@@ -794,6 +858,7 @@ pub fn run(ctx: &Ctx) -> i32 {
     let mut acc = acc;
     literal_data_matrix(&mut acc);
     ellipsis_run_matrix(&mut acc);
+    long_run_matrix(&mut acc, if ctx.thorough() { 400 } else { 160 });
     report::finish(
         acc,
         RunInfo {
@@ -801,7 +866,7 @@ pub fn run(ctx: &Ctx) -> i32 {
             tier: ctx.tier_name(),
             seed: ctx.seed,
             exhaustive: true,
-            rule: "every argument pattern (variables, _, a literal identifier, literal data 1 and #t, sub-lists and vectors of 1-3 elements nested <= 2, optional final ellipsis, no ellipsis under an ellipsis) up to the node bound, with every canonical template (flat dump, structure-preserving copy, vector, list / vector / vector-in-list sub-template under ellipsis, duplicated ellipsis variable) and literal sets () and (lit); all ordered pairs (thorough: triples) of small rules; against every use (0-4 arguments over 1 2 #t \"s\" lit foo with lists and vectors nested <= 2) up to the node bound; plus the literal-data matrix: each of 20 literal data (exact / inexact / ratio numbers of equal value, booleans, strings, characters, the empty list) as a pattern element at top level, in a sub-list, in a vector and twice in a list, against each of the 20 as the use; the ellipsis-run matrix: 6 repeated sub-patterns (with a literal identifier, a literal datum, a nested list, a vector) against every run of 1-3 items over 5 matching / near-miss variants each; distinct = distinct expansions".into(),
+            rule: "every argument pattern (variables, _, a literal identifier, literal data 1 and #t, sub-lists and vectors of 1-3 elements nested <= 2, optional final ellipsis, no ellipsis under an ellipsis) up to the node bound, with every canonical template (flat dump, structure-preserving copy, vector, list / vector / vector-in-list sub-template under ellipsis, duplicated ellipsis variable) and literal sets () and (lit); all ordered pairs (thorough: triples) of small rules; against every use (0-4 arguments over 1 2 #t \"s\" lit foo with lists and vectors nested <= 2) up to the node bound; plus the literal-data matrix: each of 20 literal data (exact / inexact / ratio numbers of equal value, booleans, strings, characters, the empty list) as a pattern element at top level, in a sub-list, in a vector and twice in a list, against each of the 20 as the use; the ellipsis-run matrix: 6 repeated sub-patterns (with a literal identifier, a literal datum, a nested list, a vector) against every run of 1-3 items over 5 matching / near-miss variants each; distinct = distinct expansions; long-run matrix: ellipsis variables bound to every number N <= 160 (thorough 400) of distinct items (flat, after fixed patterns, pairs, inside a vector, nested runs, a literal inside the run); strings / characters spelled like a literal identifier in the literal's position".into(),
             bounds: pl.descr.clone(),
             assumptions: vec!["refsyn written from R7RS 4.3.2 for the supported class; (rule set, use) pairs on which 'zero or more' and 'one or more' ellipsis semantics differ are outside the class and only counted".into()],
             wall_s: ctx.elapsed(),
